@@ -44,6 +44,9 @@ def cname(c):
     return 'c%d' % c
 
 
+_WDFORM = [0]
+
+
 def mkblt(nc, seats, lines, tie=None, withdrawn=(), undeclared=(), names=None, opts=None,
           eqlines=(), title='t', **_):
     "lines: [(m, [cid...])]; eqlines: [(m, [[cid...], ...])]"
@@ -51,7 +54,16 @@ def mkblt(nc, seats, lines, tie=None, withdrawn=(), undeclared=(), names=None, o
     if tie:
         s += '[tie %s]\n' % ' '.join(map(str, tie))
     if withdrawn:
-        s += '[withdrawn %s]\n' % ' '.join(map(str, withdrawn))
+        wl = list(withdrawn)
+        _WDFORM[0] += 1
+        form = _WDFORM[0] % 4 if len(wl) >= 2 else 0
+        # withdrawals may be declared in several places of a file; they accumulate
+        if form == 1:
+            s += '-%d\n[withdrawn %s]\n' % (wl[0], ' '.join(map(str, wl[1:])))
+        elif form == 3:
+            s += '[withdrawn %s]\n[withdrawn %s]\n' % (' '.join(map(str, wl[:-1])), wl[-1])
+        else:
+            s += '[withdrawn %s]\n' % ' '.join(map(str, wl))
     if undeclared:
         s += '[undeclared %s]\n' % ' '.join(map(str, undeclared))
     if opts:
@@ -325,7 +337,7 @@ def run_count(blt, opts, budget=10, want_ballots=True, lowprec=None, keepE=False
                 # message must name the subject (C18)
                 o['named'] = True
                 if tag in ('elect', 'defeat') and subj[0]:
-                    o['named'] = msg.rsplit(': ', 1)[-1] == cname(subj[0])
+                    o['named'] = msg.rsplit(': ', 1)[-1] == p.candidateName.get(subj[0], cname(subj[0]))
                 subj[0] = 0
                 T['acts'].append(o)
             E.logAction = la
